@@ -437,10 +437,18 @@ func (c c13) agree(res *core.Result, log *core.EventLog, ent *entropy.Source, cv
 	case 15:
 		// a valid signature whose nonce point R has x in [N, p): r = x mod N is tiny. Built by
 		// choosing R and s and solving for the public key Q = r^-1 (s R - z G).
-		if q, r2, s2, ok := bigXSignature(cv, digest, x); ok {
+		if q, r2, s2, ok := bigXSignature(cv, digest, x, 0); ok {
 			pf, ps := pubF, pubS
 			pubF, pubS = &ecdsa.PublicKey{Curve: cv, X: q.X, Y: q.Y}, q
 			check("R.x>=N", r2, s2, nil)
+			pubF, pubS = pf, ps
+		}
+		// the same construction with a one-octet s as well: the shortest possible DER signature
+		if q, r2, s2, ok := bigXSignature(cv, digest, x, 1+x%126); ok && r2.BitLen() <= 7 {
+			pf, ps := pubF, pubS
+			pubF, pubS = &ecdsa.PublicKey{Curve: cv, X: q.X, Y: q.Y}, q
+			check("tiny-r-s", r2, s2, nil)
+			check("tiny-r-s-der", nil, nil, derSig(r2, s2))
 			pubF, pubS = pf, ps
 		}
 		check("r=1", one, s, nil)
@@ -496,7 +504,7 @@ func derLen(b []byte) (int, int) {
 // bigXSignature constructs (Q, r, s) such that (r, s) is a valid ECDSA signature of digest
 // under Q and the nonce point's x-coordinate lies in [N, p) — the case in which the final
 // reduction of x modulo N matters. Uses crypto/elliptic and math/big only.
-func bigXSignature(cv elliptic.Curve, digest []byte, seed int64) (*stdecdsa.PublicKey, *big.Int, *big.Int, bool) {
+func bigXSignature(cv elliptic.Curve, digest []byte, seed int64, smallS int64) (*stdecdsa.PublicKey, *big.Int, *big.Int, bool) {
 	pr := cv.Params()
 	N, P := pr.N, pr.P
 	if N.Cmp(P) >= 0 {
@@ -520,6 +528,9 @@ func bigXSignature(cv elliptic.Curve, digest []byte, seed int64) (*stdecdsa.Publ
 		r := big.NewInt(j)
 		s := new(big.Int).SetBytes([]byte{byte(seed), 0x5a, byte(seed >> 8), 0x11, 0x77})
 		s.Add(s, big.NewInt(2))
+		if smallS > 0 {
+			s = big.NewInt(smallS)
+		}
 		// z: the digest as the verifier reads it
 		z := new(big.Int).SetBytes(digest)
 		if ob := N.BitLen(); len(digest)*8 > ob {
